@@ -108,6 +108,10 @@ def run_case(c):
     if st is None:
         return skip('no uniform complete sector of dimension >= 2')
     psi = h.rand_state(rng, qd, st['qD'], scale=float(rng.choice([0.2, 1.0, 5.0])))
+    if c['seed'] % 3 == 0:
+        # real-valued tensors (float dtype) against possibly complex Hamiltonians
+        for _i in range(len(psi.A)):
+            psi.A[_i] = psi.A[_i].real.copy()
     v0 = oracle.mps_dense(psi.A)
     n0 = float(np.linalg.norm(v0))
     if n0 < 1e-10:
